@@ -190,14 +190,20 @@ def add_mutations(rng, ts, k=None, nodes=None):
     cand = list(nodes) if nodes is not None else list(range(ts.num_nodes))
     if not cand:
         return ts
+    # at most one mutation per (site, node): with two on the same branch the genotype depends on
+    # the row order tskit's sort gives to ties (DESIGN.md section 9, K9), which is not what is tested
+    used = set((int(m.site), int(m.node)) for m in ts.mutations())
     for j in range(k):
         if pos_site and rng.random() < 0.3:
             x = rng.choice(sorted(pos_site))
         else:
             x = float(rng.randrange(L))
+        u = rng.choice(cand)
+        if x in pos_site and (pos_site[x], u) in used:
+            continue
         if x not in pos_site:
             pos_site[x] = tables.sites.add_row(x, "0")
-        u = rng.choice(cand)
+        used.add((pos_site[x], u))
         tables.mutations.add_row(site=pos_site[x], node=u, derived_state=str(1 + j % 3))
     return _finish(tables)
 
